@@ -218,7 +218,7 @@ prop(
     bounds=("orientation: any edge (ids any usize), both directions; backtrack: ANY edge table over 3 vertices / 2 edges (quick), 3/3 and 4/4 (thorough) with symbolic end points, ANY partial tree consistent with it (parent cycles, missing entries allowed), any origin != destination; unwind 6-7"),
     assumptions=[
         "hook H1: the tree type HashMap<VertexId, SearchTreeBranch> and the visited-edge HashSet are the fixed-capacity table models",
-        "that run_a_star only inserts branches consistent with the graph and never closes a parent cycle - the core of the property - needs the search loop, which could not be encoded (four encodings, no verdict in 19-25 min): NOT decided",
+        "that run_a_star only inserts branches consistent with the graph and never closes a parent cycle is decided by INDUCTION over the loop iterations (harness crate `loop`, see the loop assumptions below): clause I2 of the invariant - every tree entry records a permitted edge joining the recorded parent to the entry's vertex in search direction, and cost(parent) < cost(vertex), hence following parents strictly decreases the cost and reaches the origin (the only vertex without entry that has a cost) without revisiting a vertex",
         "edge-oriented wrappers, route concatenation in the ksp algorithms, route_contains_loop (itertools unique / hash sets) are NOT covered",
         "std::fmt::format stubbed",
     ],
@@ -262,3 +262,85 @@ prop(
     oracle="wrapped angle congruent mod 360; documented turn sectors; table entry of the classified turn; access (network order pair) then traversal applied to a copy; costs = cost model's; unit-aware add = previous + converted value (0.2%)",
 )
 
+# ---------------------------------------------------------------------------------------------
+# the search loop (harness crate `loop`): induction over the iterations of the REAL loop body of
+# run_a_star, sliced from /repo's current source text on every run (lib/slice_loop.py)
+# ---------------------------------------------------------------------------------------------
+LOOP_FUNCTIONS = [
+    "a_star_algorithm::run_a_star - prologue, ONE iteration of the loop body, epilogue (re-emitted verbatim by the source slicer as verif_a_star_{prologue,step,epilogue}; includes advance_search, get_last_traversed_edge_id)",
+    "TerminationModel::test (IterationsLimit)", "StateModel::initial_state", "Graph::get_edge", "Direction::{tree_key_vertex_id, terminal_vertex_id}",
+    "SearchResult::new", "FrontierModel::valid_frontier (dyn dispatch to a harness mask model)",
+]
+LOOP_BOUNDS = ("induction over loop iterations (histories of ANY length): base = the state the prologue hands to the loop satisfies INV; step = from EVERY state "
+               "satisfying INV one iteration of the real loop body re-establishes INV or leaves the loop / fails under exactly the stated conditions; exit = "
+               "the epilogue returns the loop's tree. Symbolic: ANY directed graph with NV vertices and NE edges (end points symbolic: self loops, parallel and "
+               "anti-parallel edges), any edge permission mask, edge costs any f64 in [2^-10, 2^10], estimates in [0, 2^10], both directions, any origin, any / no "
+               "destination, iteration limit any u64 <= 2^20, queue priorities any non-NaN f64, tie-breaking of the queue nondeterministic. Instances (NV, NE): "
+               "quick (2,1) [+ (2,2) for C05]; thorough adds (3,3), (3,4), (4,4). Stated domain bound: every cost-so-far < 2^40 (assumed of the pre-state; under it "
+               "cost + edge cost > cost, no floating-point absorption). Table models have capacity 4 in this crate (NV <= 4). unwind = NE + 2")
+LOOP_ASSUMPTIONS = [
+    "source slicer (lib/slice_loop.py): the three functions are the text of run_a_star's prologue / loop body / epilogue, regenerated from /repo's current source on every run and compiled inside the same module (hook H4, feature verif-step); that run_a_star equals 'prologue; loop { body }; epilogue' is syntactic (exactly one top-level loop, checked by the slicer; any other shape -> inconclusive, never pass)",
+    "assume-guarantee, through the override points of hook H5 (util/verif_hooks.rs): Direction::get_incident_edges returns exactly the listed edges leaving / entering the vertex in edge-id order (decided from the container inwards by C15/C11); Direction::perform_edge_traversal returns a traversal of that edge with a finite, strictly positive cost and an empty state vector (C07: finite and > 0); SearchInstance::estimate_traversal_cost returns a finite non-negative estimate (C07). forward_traversal / reverse_traversal and the cost model themselves are NOT executed here",
+    "hooks H1/H3: tree, cost table and frontier queue are the fixed-capacity table models (contract of a map / of a priority queue; pop removes AN entry of maximal priority, chosen nondeterministically among equals)",
+    "restrictions depend on the edge only (mask per edge id); turn restrictions (dependence on the previous edge) are NOT covered by the loop harnesses",
+    "an inductive invariant may admit pre-states no run reaches: a counterexample of the step harness is replayed natively on the sliced loop body from that pre-state; INV was strengthened until the unchanged tree passes",
+    "std::time::Instant::now stubbed to a fixed instant (no runtime limit configured), std::fmt::format stubbed",
+    "NOT decided here: optimality of the costs (C02), run_a_star_edge_oriented and the edge-oriented route assembly, the ksp drivers, bidirectional / reverse-route re-orientation",
+]
+INV_TEXT = ("INV: (I1) origin has cost 0 and no entry, every other vertex has a cost iff it has a tree entry; (I2) every entry v -> (p, e): e exists, is permitted, joins p to v in "
+            "search direction, p has a cost and cost(p) < cost(v); (I3) costs finite and >= 0, iterations <= limit; (I4) for every permitted edge p -> v: p has a cost => v has a "
+            "cost or p is queued; (I5) queued vertices have a cost; (I7) a destination with a cost is still queued")
+LOOP_RUN_Q1 = dict(crate="loop", quick=["astar::q1::", "astar::q::base_v2_e2", "astar::q::exit_v2_e2"], thorough=["astar::q1::", "astar::q::", "astar::t::"], jobs=6)
+LOOP_RUN_Q = dict(crate="loop", quick=["astar::q1::", "astar::q::base_v2_e2", "astar::q::step_v2_e2", "astar::q::exit_v2_e2"], thorough=["astar::q1::", "astar::q::", "astar::t::", "astar::dj::step_dijkstra_v2_e2", "astar::dj::base_dijkstra_v2_e2"], jobs=6)
+
+prop(
+    "C05",
+    runs=[LOOP_RUN_Q],
+    ht_quick=1500, ht_thorough=5400,
+    functions=LOOP_FUNCTIONS,
+    bounds=LOOP_BOUNDS,
+    assumptions=LOOP_ASSUMPTIONS + [
+        INV_TEXT,
+        "decided at the loop's exits (oracle: boolean closure of the symbolic graph under the mask, computed in the harness): search without destination ends (queue exhausted) with a tree whose vertices are exactly the vertices reachable from the origin over permitted edges, the origin excluded; search with destination ends with the destination in the tree only if it is reachable, and returns NoPathExistsBetweenVertices only if it is NOT reachable; the only other error is the iteration limit; origin == destination returns an empty result before the loop",
+        "'each labelled with its least cost' (second sentence of the property) is decided for Dijkstra by the C02 harnesses (astar::dj::, same crate): at queue exhaustion every tree vertex carries its Bellman-Ford least cost; they run under C02, and under this property in the thorough tier",
+        "that a search with a reachable destination terminates with a route (rather than running on) follows from the iteration limit only; termination without a limit is not decided",
+    ],
+    out=["least-cost labelling of the tree", "edge-oriented searches", "restrictions that depend on the previous edge or the state"],
+    oracle="reachability closure over permitted edges in search direction (harness, NV-1 relaxation rounds over the symbolic edge table)",
+)
+
+INV_D_TEXT = ("INV_D (Dijkstra, weight factor 0; 'closed' = has a cost and is not queued; least(v) = Bellman-Ford over the symbolic edge table, the same left-to-right "
+              "floating-point sums the search forms): (D1) cost(v) >= least(v); (D2) closed v: cost(v) == least(v); (D3) queued v: priority == cost(v); "
+              "(D4) every permitted edge u -> v out of a closed u: v has a cost and cost(v) <= cost(u) + c(e); (D7) the parent of a tree entry is closed and "
+              "cost(v) == cost(parent) + c(edge) exactly")
+prop(
+    "C02",
+    runs=[dict(crate="loop", quick=["astar::dj::bf_fixpoint_v2_e2", "astar::dj::base_dijkstra_v2_e2", "astar::dj::step_dijkstra_v2_e1", "astar::dj::step_dijkstra_v2_e2"],
+               thorough=["astar::dj::"], jobs=6)],
+    ht_quick=1800, ht_thorough=6000,
+    functions=LOOP_FUNCTIONS + ["InternalPriorityQueue::{push, push_increase, pop} (table model of the queue: pop returns AN entry of maximal priority)"],
+    bounds=("DIJKSTRA ONLY (weight factor Some(0)), vertex-oriented, edge costs that do not depend on how the edge was reached. " + LOOP_BOUNDS +
+            " Instances (NV, NE) for this property: quick (2,1), (2,2) [two vertices: parallel / anti-parallel edges and self loops compete]; thorough adds (3,3) [direct edge against a two-edge detour]."),
+    assumptions=[INV_TEXT, INV_D_TEXT,
+        "decided: base (the prologue establishes INV_D), step (from EVERY state satisfying INV and INV_D one iteration of the real loop body re-establishes INV and INV_D), and at the exits: a destination that is popped carries cost == least(destination); a search without destination ends with every tree vertex labelled with its least cost. By D7 the cost accumulated along the tree path of a vertex equals its label, so the route that backtracking reads off the tree (C01) has least total cost",
+        "lemma used as an assumption of the step harness: the Bellman-Ford table is a fixpoint of relaxation after NV-1 rounds (decided by astar::dj::bf_fixpoint_v2_e2; for (3,3) the lemma harness is in the thorough tier and may not return - then it stays a mathematical fact about NV-1 rounds with monotone floating-point addition, stated, not decided)",
+        "NOT decided: A* with a positive weight factor (admissibility of the haversine estimate: trigonometry), query-supplied weights and rates (CostModel::new), reverse == forward costs on the same network, 'Dijkstra and A* report the same cost', edge-oriented searches, costs that depend on the previous edge (access model)",
+    ] + LOOP_ASSUMPTIONS,
+    out=["A* (estimate admissibility)", "cost model construction from query weights", "edge-oriented searches", "graphs with more than 3 vertices"],
+    oracle="Bellman-Ford least costs over the symbolic edge table (harness), compared bit-exactly with the search's labels",
+)
+
+# loop-level obligations of C01 / C04 / C10 ride on the same induction harnesses
+_LOOP_EXTRA = {
+    "C01": ["decided by the loop induction for C01: clause I2 of INV (see above) holds in every state the loop reaches and in the tree the epilogue returns: entries are consistent with the graph in search direction and parents have strictly smaller cost (rooted, acyclic); the origin never gets an entry"],
+    "C04": ["decided by the loop induction for C04: the traversal of a forbidden edge is never even attempted (counter in the traversal override stays 0 for every edge the mask forbids) and every tree entry records a permitted edge (clause I2), in every reachable state and in the returned tree - for restrictions that depend on the edge only"],
+    "C10": ["decided by the loop induction for C10: with an iteration limit L the loop body is entered with iterations <= L, every completed iteration increases the counter by exactly one, and an iteration entered with iterations >= L returns the explicit QueryTerminated error before anything is popped - so at most L expansion steps are performed and a limit that is hit is reported as the terminated error, never as a route or 'no path'; the counter the epilogue reports is the loop's"],
+}
+for _pid, _extra in _LOOP_EXTRA.items():
+    _P = PROPS[_pid]
+    _P["runs"] = list(_P["runs"]) + [LOOP_RUN_Q1]
+    _P["functions"] = list(_P.get("functions", [])) + LOOP_FUNCTIONS
+    _P["bounds"] = _P.get("bounds", "") + " || SEARCH LOOP: " + LOOP_BOUNDS
+    _P["assumptions"] = list(_P.get("assumptions", [])) + ["--- search loop (harness crate `loop`) ---", INV_TEXT] + _extra + LOOP_ASSUMPTIONS
+    _P["ht_quick"] = max(_P.get("ht_quick", 600), 1500)
+    _P["ht_thorough"] = max(_P.get("ht_thorough", 1800), 5400)
